@@ -41,6 +41,8 @@ type conn8 struct {
 	closer      chan struct{}
 	aliveActive int
 	overlap     bool
+	pushKind    map[int]string
+	windowPush  map[int]bool
 }
 
 func (c *conn8) logCB(k string) {
@@ -177,6 +179,10 @@ func (c *conn8) frames() []f36 {
 		case rep.Push != nil && rep.Push.Message != nil:
 			var n int
 			_, _ = fmt.Sscanf(string(rep.Push.Message.Data), `{"n":%d}`, &n)
+			out = append(out, f36{"push", n})
+		case rep.Push != nil && rep.Push.Pub != nil:
+			var n int
+			_, _ = fmt.Sscanf(string(rep.Push.Pub.Data), `{"n":%d}`, &n)
 			out = append(out, f36{"push", n})
 		default:
 			out = append(out, f36{"other:" + cl.Describe(rep), 0})
@@ -561,10 +567,27 @@ func (r *run8) run(bi int, beh []map[string]any, ss, pushes bool, res *vh.Result
 			nontrivial = true
 		case "Push":
 			n := vh.Int(step["n"])
-			for _, cc := range r.env.Node.Hub().Connections() {
-				if cc.ID() == c.id {
-					_ = cc.Send([]byte(fmt.Sprintf(`{"n":%d}`, n)))
+			kind := vh.Str(step["kind"])
+			c.mu.Lock()
+			if c.pushKind == nil {
+				c.pushKind = map[int]string{}
+				c.windowPush = map[int]bool{}
+			}
+			c.pushKind[n] = kind
+			c.windowPush[n] = vh.Bool(step["window"])
+			c.mu.Unlock()
+			data := []byte(fmt.Sprintf(`{"n":%d}`, n))
+			if kind == "send" {
+				for _, cc := range r.env.Node.Hub().Connections() {
+					if cc.ID() == c.id {
+						_ = cc.Send(data)
+					}
 				}
+			} else if _, err := r.env.Node.Publish(r.ssch, data); err != nil {
+				drift("C11", "publish: "+err.Error())
+			}
+			if vh.Bool(step["window"]) {
+				time.Sleep(500 * time.Microsecond) // nothing to wait for: the push must NOT show up before the reply
 			}
 			nontrivial = true
 		default:
@@ -581,13 +604,19 @@ func (r *run8) run(bi int, beh []map[string]any, ss, pushes bool, res *vh.Result
 				time.Sleep(100 * time.Microsecond)
 			}
 			wantOut := len(vh.List(tlaSeq(st["out"], cc.n)))
-			cc.t.WaitFor(gateWait, func(rs []*protocol.Reply, closed bool) bool {
-				n := len(rs)
-				if closed {
-					n++
+			for deadline := time.Now().Add(gateWait); time.Now().Before(deadline); time.Sleep(100 * time.Microsecond) {
+				n := 0
+				cc.mu.Lock()
+				for _, f := range cc.frames() {
+					if !(f.T == "push" && cc.windowPush[f.Code]) {
+						n++
+					}
 				}
-				return n >= wantOut
-			})
+				cc.mu.Unlock()
+				if n >= wantOut {
+					break
+				}
+			}
 		}
 		// monitors on the real logs
 		for _, cc := range allConns() {
@@ -619,11 +648,17 @@ func (r *run8) run(bi int, beh []map[string]any, ss, pushes bool, res *vh.Result
 				}
 			}
 			if len(fr) > 0 && fr[0].T != "connect" && fr[0].T != "disc" {
-				violate("C11", "first-frame:"+fr[0].T, fmt.Sprintf("connection %d: the first frame written is %v, not the connect reply: %v", cc.n, fr[0], fr))
+				what := fr[0].T
+				if what == "push" {
+					cc.mu.Lock()
+					what += "-" + cc.pushKind[fr[0].Code]
+					cc.mu.Unlock()
+				}
+				violate("C11", "first-frame:"+what, fmt.Sprintf("connection %d: the first frame written is %v (%s), not the connect reply: %v", cc.n, fr[0], what, fr))
 			}
 			for i, f := range fr {
-				if f.T == "connect" && i > 0 {
-					violate("C11", "reply-not-first", fmt.Sprintf("connection %d: the connect reply is frame %d: %v", cc.n, i+1, fr))
+				if f.T == "connect" && i > 0 && fr[0].T == "connect" {
+					violate("C11", "connect-reply-twice", fmt.Sprintf("connection %d: a second connect reply is frame %d: %v", cc.n, i+1, fr))
 				}
 			}
 		}
@@ -661,8 +696,17 @@ func (r *run8) run(bi int, beh []map[string]any, ss, pushes bool, res *vh.Result
 				m := vh.Map(x)
 				mo = append(mo, f36{vh.Str(m["t"]), vh.Int(m["code"])})
 			}
-			if fr := cc.frames(); vh.J(fr) != vh.J(mo) && !(len(fr) == 0 && len(mo) == 0) {
-				drift("C08", fmt.Sprintf("frames of connection %d differ after %s: real %s, model %s", cc.n, vh.J(step), vh.J(fr), vh.J(mo)))
+			// what became of a push sent while the connect command was under way is not the model's claim
+			var fr []f36
+			cc.mu.Lock()
+			for _, f := range cc.frames() {
+				if !(f.T == "push" && cc.windowPush[f.Code]) {
+					fr = append(fr, f)
+				}
+			}
+			cc.mu.Unlock()
+			if vh.J(fr) != vh.J(mo) && !(len(fr) == 0 && len(mo) == 0) {
+				drift("", fmt.Sprintf("frames of connection %d differ after %s: real %s, model %s", cc.n, vh.J(step), vh.J(fr), vh.J(mo)))
 				break
 			}
 		}
